@@ -305,3 +305,10 @@ pub fn vassert(c: bool)
 pub fn vpanic() -> !
     requires false,
 { unimplemented!() }
+
+// module-path aliases so fully qualified plonky2 paths in the repository resolve to the prelude stubs
+pub mod plonky2 {
+    pub mod hash { pub mod hash_types { pub use crate::HashOutTarget; pub use crate::RichField; } pub mod poseidon2 { pub use crate::Poseidon2Hash; } }
+    pub mod iop { pub mod target { pub use crate::Target; pub use crate::BoolTarget; } }
+    pub mod plonk { pub mod circuit_builder { pub use crate::CircuitBuilder; } }
+}
